@@ -11,6 +11,13 @@
 // reduced modulo n and repeats after the first are dropped.  A created graph is appended while
 // the store has fewer than 4 entries, otherwise it replaces entry (g+1) mod 4.  Deleting any
 // token therefore leaves a valid history.
+//
+// Large mode: a header `L<n0>` (graphs with 20..80 vertices, hubs, long argument lists).  The
+// semantics of the tokens is the same; only what is printed differs, to keep the model side
+// affordable: after a token only the touched graphs (receiver, created graph) are dumped, as
+// n/m/degrees/IsEdge rows of a few sampled vertices (0, n/2, n-1 and the first three arguments
+// modulo n)/neighbour lists (of the sampled vertices after AddEdge/RemoveEdge, of all vertices
+// after the other operations); at the end every graph is dumped with all rows and all lists.
 package main
 
 import (
@@ -68,14 +75,15 @@ func parseTok(s string) tok {
 	return t
 }
 
-func parseCase(line string) (int, []tok) {
+func parseCase(line string) (bool, int, []tok) {
 	parts := strings.SplitN(line, ";", 2)
-	n0, _ := strconv.Atoi(parts[0])
+	large := strings.HasPrefix(parts[0], "L")
+	n0, _ := strconv.Atoi(strings.TrimPrefix(parts[0], "L"))
 	var toks []tok
 	for _, f := range strings.Fields(parts[1]) {
 		toks = append(toks, parseTok(f))
 	}
-	return n0, toks
+	return large, n0, toks
 }
 
 func caseLine(n0 int, toks []tok) string {
@@ -85,6 +93,8 @@ func caseLine(n0 int, toks []tok) string {
 	}
 	return fmt.Sprintf("%d;%s", n0, strings.Join(s, " "))
 }
+
+func caseLineL(n0 int, toks []tok) string { return "L" + caseLine(n0, toks) }
 
 // vlist reduces raw numbers modulo n and drops repeats after the first.
 func vlist(raw []int, n int) []int {
@@ -135,6 +145,76 @@ func dump(g graph.Graph) string {
 	return fmt.Sprintf("%d/%d/%s/%s/%s", n, g.M(), hx.Ints(g.Degrees()), hx.Ints(rows), strings.Join(nb, ","))
 }
 
+// sample lists the vertices whose IsEdge rows (and, after edge edits, neighbour lists) are
+// printed in large mode.
+func sample(n int, args []int) []int {
+	if n == 0 {
+		return nil
+	}
+	s := []int{0, n / 2, n - 1}
+	for i, a := range args {
+		if i >= 3 {
+			break
+		}
+		s = append(s, a%n)
+	}
+	return s
+}
+
+func allVertices(n int) []int {
+	r := make([]int, n)
+	for i := range r {
+		r[i] = i
+	}
+	return r
+}
+
+// bigDump prints n/m/degrees/rows/neighbours with the IsEdge rows of the vertices in rows (as
+// strings of 0/1 over all u) and the neighbour lists of the vertices in nbs.
+func bigDump(g graph.Graph, rows, nbs []int) string {
+	n := g.N()
+	rs := make([]string, len(rows))
+	for k, v := range rows {
+		b := make([]byte, n)
+		for u := 0; u < n; u++ {
+			if g.IsEdge(v, u) {
+				b[u] = '1'
+			} else {
+				b[u] = '0'
+			}
+		}
+		rs[k] = fmt.Sprintf("%d:%s", v, b)
+	}
+	ns := make([]string, len(nbs))
+	for k, v := range nbs {
+		ns[k] = fmt.Sprintf("%d:%s", v, strings.ReplaceAll(hx.Ints(g.Neighbours(v)), ",", "."))
+	}
+	return fmt.Sprintf("%d/%d/%s/%s/%s", n, g.M(), hx.Ints(g.Degrees()), strings.Join(rs, ","), strings.Join(ns, ","))
+}
+
+// touchedDump is the large-mode observation after token t: the receiver and the created graph.
+func touchedDump(st []graph.EditableGraph, t tok, touched []int) string {
+	s := make([]string, len(touched))
+	for k, i := range touched {
+		g := st[i]
+		smp := sample(g.N(), t.args)
+		nbs := smp
+		if t.kind != 'e' && t.kind != 'x' {
+			nbs = allVertices(g.N())
+		}
+		s[k] = fmt.Sprintf("%d=%s", i, bigDump(g, smp, nbs))
+	}
+	return strings.Join(s, ";")
+}
+
+func fullDump(st []graph.EditableGraph) string {
+	s := make([]string, len(st))
+	for i, g := range st {
+		s[i] = bigDump(g, allVertices(g.N()), allVertices(g.N()))
+	}
+	return strings.Join(s, ";")
+}
+
 func dumpAll(st []graph.EditableGraph) string {
 	s := make([]string, len(st))
 	for i, g := range st {
@@ -145,7 +225,7 @@ func dumpAll(st []graph.EditableGraph) string {
 
 // apply performs one token on one store; it returns the new store and whether a dense
 // AddVertex re-used spare capacity / a non-last vertex was removed.
-func apply(st []graph.EditableGraph, t tok) ([]graph.EditableGraph, bool) {
+func apply(st []graph.EditableGraph, t tok) ([]graph.EditableGraph, bool, []int) {
 	gi := t.g % len(st)
 	g := st[gi]
 	n := g.N()
@@ -184,18 +264,21 @@ func apply(st []graph.EditableGraph, t tok) ([]graph.EditableGraph, bool) {
 	default:
 		panic("bad token")
 	}
+	touched := []int{gi}
 	if created != nil {
 		if len(st) < maxStore {
 			st = append(st, created)
+			touched = append(touched, len(st)-1)
 		} else {
 			st[(gi+1)%maxStore] = created
+			touched = append(touched, (gi+1)%maxStore)
 		}
 	}
-	return st, interesting
+	return st, interesting, touched
 }
 
 func exec(line string) hx.Result {
-	n0, toks := parseCase(line)
+	large, n0, toks := parseCase(line)
 	dst := []graph.EditableGraph{graph.NewDense(n0, nil)}
 	sst := []graph.EditableGraph{graph.NewSparse(n0, nil)}
 	var sb strings.Builder
@@ -204,8 +287,9 @@ func exec(line string) hx.Result {
 	maxN := n0
 	for k, t := range toks {
 		var i1, i2 bool
-		dst, i1 = apply(dst, t)
-		sst, i2 = apply(sst, t)
+		var touched []int
+		dst, i1, touched = apply(dst, t)
+		sst, i2, _ = apply(sst, t)
 		if i1 || i2 {
 			interesting = true
 		}
@@ -213,7 +297,11 @@ func exec(line string) hx.Result {
 		if k > 0 {
 			sb.WriteByte(' ')
 		}
-		sb.WriteString("D:" + dumpAll(dst) + "|S:" + dumpAll(sst))
+		if large {
+			sb.WriteString("D:" + touchedDump(dst, t, touched) + "|S:" + touchedDump(sst, t, touched))
+		} else {
+			sb.WriteString("D:" + dumpAll(dst) + "|S:" + dumpAll(sst))
+		}
 		for _, g := range dst {
 			if interesting && g.M() > 0 {
 				nontrivial = true
@@ -222,6 +310,9 @@ func exec(line string) hx.Result {
 				maxN = g.N()
 			}
 		}
+	}
+	if large {
+		sb.WriteString(" F:" + fullDump(dst) + "|" + fullDump(sst))
 	}
 	strict := make([]string, len(dst))
 	for i, g := range dst {
@@ -234,6 +325,17 @@ func exec(line string) hx.Result {
 		strict[i] = fmt.Sprintf("%d:%s", len(d.Edges), hx.Ints(b))
 	}
 	buckets := []string{fmt.Sprintf("len<=%d", bucket(len(toks))), fmt.Sprintf("maxn<=%d", bucket(maxN)), fmt.Sprintf("store=%d", len(dst))}
+	if large {
+		maxDeg := 0
+		for _, g := range sst {
+			for _, d := range g.Degrees() {
+				if d > maxDeg {
+					maxDeg = d
+				}
+			}
+		}
+		buckets = append(buckets, "mode=large", fmt.Sprintf("finalmaxdeg<=%d", bucket(maxDeg)))
+	}
 	for k, c := range kinds {
 		if c > 0 {
 			buckets = append(buckets, "has:"+string(k))
@@ -358,6 +460,270 @@ func genHistory(r *hx.Rng, n0, length, maxN int) []tok {
 	return toks
 }
 
+// entry is what the large-history generator knows about one store entry: its vertex count and
+// one vertex (hub) with a known long neighbour list.  The token semantics never depend on it.
+type entry struct {
+	n   int
+	hub int
+	nb  []int
+}
+
+func (e entry) clone() entry { return entry{e.n, e.hub, append([]int(nil), e.nb...)} }
+
+func (e *entry) edge(i, j int, add bool) {
+	if e.hub < 0 || i == j || (i != e.hub && j != e.hub) {
+		return
+	}
+	u := i + j - e.hub
+	at := -1
+	for k, x := range e.nb {
+		if x == u {
+			at = k
+		}
+	}
+	if add && at < 0 {
+		e.nb = append(e.nb, u)
+	} else if !add && at >= 0 {
+		e.nb = append(e.nb[:at], e.nb[at+1:]...)
+	}
+}
+
+func (e *entry) remove(w int) {
+	e.n--
+	if e.hub < 0 {
+		return
+	}
+	if w == e.hub {
+		e.hub, e.nb = -1, nil
+		return
+	}
+	var nb []int
+	for _, x := range e.nb {
+		if x > w {
+			nb = append(nb, x-1)
+		} else if x < w {
+			nb = append(nb, x)
+		}
+	}
+	e.nb = nb
+	if w < e.hub {
+		e.hub--
+	}
+}
+
+// hubSet returns a vertex list of the given size holding the hub and, as far as they last,
+// neighbours of the hub, in random order.
+func hubSet(r *hx.Rng, e entry, size int) []int {
+	V := []int{e.hub}
+	used := map[int]bool{e.hub: true}
+	p := r.Perm(len(e.nb))
+	for _, k := range p {
+		if len(V) >= size {
+			break
+		}
+		V = append(V, e.nb[k])
+		used[e.nb[k]] = true
+	}
+	for _, x := range r.Perm(e.n) {
+		if len(V) >= size {
+			break
+		}
+		if !used[x] {
+			V = append(V, x)
+		}
+	}
+	q := r.Perm(len(V))
+	W := make([]int, len(V))
+	for i, k := range q {
+		W[i] = V[k]
+	}
+	return W
+}
+
+var thresholds = []int{7, 8, 9, 15, 16, 17, 31, 32, 33, 63, 64, 65}
+
+// genLarge: a graph on n0 vertices with sparse background edges and one hub of degree d (built
+// by d AddEdge calls or as a new vertex by one AddVertex call with d neighbours), induced
+// subgraphs on k vertices around the hub, then a tail of operations on the big graphs: induced
+// subgraphs with 1..5 and with many vertices, removal of low-numbered/random/hub vertices (long
+// row compaction), AddVertex with neighbour lists at the thresholds, copies, edge edits.
+func genLarge(r *hx.Rng, n0, k, d int, viaAddVertex bool, tail int) []tok {
+	var toks []tok
+	add := func(t tok) { toks = append(toks, t) }
+	es := []entry{{n: n0, hub: -1}}
+	create := func(gi int, e entry) {
+		if len(es) < maxStore {
+			es = append(es, e)
+		} else {
+			es[(gi+1)%maxStore] = e
+		}
+	}
+	h := r.Intn(n0)
+	if viaAddVertex {
+		h = n0
+	}
+	for i := 0; i < n0; i++ {
+		a, b := r.Intn(n0), r.Intn(n0)
+		if a == h || b == h {
+			continue
+		}
+		add(tok{'e', 0, []int{a, b}})
+	}
+	if viaAddVertex {
+		if d > n0 {
+			d = n0
+		}
+		nb := r.Perm(n0)[:d]
+		add(tok{'v', 0, append([]int(nil), nb...)})
+		es[0] = entry{n0 + 1, n0, nb}
+	} else {
+		var nb []int
+		for _, x := range r.Perm(n0) {
+			if x != h && len(nb) < d {
+				nb = append(nb, x)
+			}
+		}
+		for _, u := range nb {
+			if r.Bool() {
+				add(tok{'e', 0, []int{h, u}})
+			} else {
+				add(tok{'e', 0, []int{u, h}})
+			}
+		}
+		es[0] = entry{n0, h, nb}
+	}
+	for i := 0; i < 3; i++ {
+		size := k
+		if i == 2 {
+			size = r.Range(1, 5)
+		}
+		V := hubSet(r, es[0], size)
+		add(tok{'s', 0, V})
+		create(0, entry{n: len(V), hub: -1})
+	}
+	for step := 0; step < tail; step++ {
+		gi := r.Intn(len(es))
+		if r.Chance(1, 2) {
+			gi = 0
+		}
+		e := &es[gi]
+		n := e.n
+		if n < 2 {
+			continue
+		}
+		switch c := r.Intn(100); {
+		case c < 25:
+			size := r.Range(1, 5)
+			var V []int
+			if e.hub >= 0 && r.Chance(3, 4) {
+				V = hubSet(r, *e, size)
+			} else {
+				V = r.Perm(n)[:min(size, n)]
+			}
+			add(tok{'s', gi, V})
+			create(gi, entry{n: len(V), hub: -1})
+		case c < 35:
+			V := r.Perm(n)[:r.Range(n/2, n)]
+			add(tok{'s', gi, V})
+			create(gi, entry{n: len(V), hub: -1})
+		case c < 50:
+			w := r.Intn(n)
+			if r.Chance(1, 4) {
+				w = r.Intn(min(3, n))
+			} else if e.hub >= 0 && r.Chance(1, 6) {
+				w = e.hub
+			}
+			add(tok{'r', gi, []int{w}})
+			e.remove(w)
+		case c < 65:
+			if n >= 84 {
+				continue
+			}
+			l := thresholds[r.Intn(len(thresholds))]
+			if l > n || r.Chance(1, 8) {
+				l = n
+			}
+			nb := r.Perm(n)[:l]
+			add(tok{'v', gi, append([]int(nil), nb...)})
+			*e = entry{n + 1, n, nb}
+		case c < 75:
+			add(tok{'c', gi, nil})
+			create(gi, e.clone())
+		default:
+			a, b := r.Intn(n), r.Intn(n)
+			if e.hub >= 0 && r.Chance(1, 2) {
+				a = e.hub
+				if len(e.nb) > 0 && r.Chance(1, 2) {
+					b = e.nb[r.Intn(len(e.nb))]
+				}
+			}
+			if r.Chance(1, 2) {
+				add(tok{'e', gi, []int{a, b}})
+				e.edge(a, b, true)
+			} else {
+				add(tok{'x', gi, []int{a, b}})
+				e.edge(a, b, false)
+			}
+		}
+	}
+	if es[0].hub >= 0 {
+		add(tok{'s', 0, hubSet(r, es[0], r.Range(2, 5))})
+	}
+	return toks
+}
+
+// genLargeCases covers the size dimension systematically: hub degrees just below, at and above
+// c*k for induced subgraphs on k = 1..5 vertices (ratio thresholds c) and at the absolute
+// thresholds 8, 16, 32, 64.
+func genLargeCases(g *hx.Gen) {
+	r := g.Rng
+	count := 0
+	one := func(k, d int) {
+		if d < 1 || d > 70 {
+			return
+		}
+		n0 := d + 2 + r.Intn(10)
+		if n0 < 20 {
+			n0 = 20 + r.Intn(6)
+		}
+		if n0 > 80 {
+			n0 = 80
+		}
+		tail := 6
+		if g.Thorough() {
+			tail = r.Range(4, 14)
+		}
+		if n0 > 50 {
+			tail = min(tail, 5)
+		}
+		g.Emit(caseLineL(n0, genLarge(r, n0, k, d, count%2 == 0, tail)))
+		count++
+	}
+	ratios := []int{8, 4, 16}
+	reps := 1
+	if g.Thorough() {
+		ratios = []int{2, 3, 4, 6, 8, 12, 16, 32}
+		reps = 6
+	}
+	for rep := 0; rep < reps; rep++ {
+		for _, c := range ratios {
+			for k := 1; k <= 5; k++ {
+				deltas := []int{0, 1}
+				if c == 8 || g.Thorough() {
+					deltas = []int{-1, 0, 1, 2}
+				}
+				for _, dl := range deltas {
+					one(k, c*k+dl)
+				}
+			}
+		}
+		for _, d := range thresholds {
+			one(r.Range(1, 5), d)
+		}
+	}
+	g.Note(fmt.Sprintf("large mode: %d histories on graphs with 20..80 vertices and a hub of degree c*k-1..c*k+2 (k = |V| of the induced subgraphs, c a ratio threshold) or at 8/16/32/64 +-1", count))
+}
+
 func gen(g *hx.Gen) {
 	emit := func(n0 int, toks []tok) { g.Emit(caseLine(n0, toks)) }
 	// corpus: remove a middle vertex, re-add within the stale capacity, edit copy and source
@@ -409,6 +775,7 @@ func gen(g *hx.Gen) {
 		exh(3, 3)
 		exh(2, 4)
 	}
+	genLargeCases(g)
 	count := g.Pick(5000, 200000)
 	for i := 0; i < count; i++ {
 		n0 := g.Rng.Intn(6)
@@ -420,7 +787,7 @@ func gen(g *hx.Gen) {
 
 func main() {
 	hx.Main(hx.Prop{
-		Rule:        "history of AddVertex/RemoveVertex/AddEdge/RemoveEdge/Copy/InducedSubgraph over a store of <= 4 graphs, executed on DenseGraph and SparseGraph; non-trivial = some RemoveVertex of a non-last vertex or some dense AddVertex into spare capacity, after which some live graph has an edge; distinct by history text",
+		Rule:        "history of AddVertex/RemoveVertex/AddEdge/RemoveEdge/Copy/InducedSubgraph over a store of <= 4 graphs, executed on DenseGraph and SparseGraph; non-trivial = some RemoveVertex of a non-last vertex or some dense AddVertex into spare capacity, after which some live graph has an edge; distinct by history text; large mode (header L): the same on graphs with 20..80 vertices with hubs, observed on the touched graphs after each operation and completely at the end",
 		Gen:         gen,
 		Exec:        exec,
 		CaseTimeout: 5 * time.Second,
